@@ -34,7 +34,7 @@ func bigTree(leaves, extra int) (n int, edges [][2]int) {
 // observeBig runs ChromaticIndex on the tree of one B token, validates value and witness and
 // returns the strict-part text "<chi'>:<colours of the edges in dense-array order>".
 func observeBig(c gx.Case, t gx.Tok, viol *[]hx.OracleViolation) string {
-	if len(t.Ints) != 2 || t.Ints[0] < 1 || t.Ints[1] < 0 {
+	if len(t.Ints) < 2 || t.Ints[0] < 1 || t.Ints[1] < 0 {
 		return "?"
 	}
 	leaves, extra := t.Ints[0], t.Ints[1]
